@@ -1301,7 +1301,13 @@ pub fn check_reporting(rec: &RunRecord) -> Vec<Violation> {
             if unreliable {
                 any_uncertain_peer = true;
             }
+            // Once the runtime has completed the disconnection promise of a remote it has removed it: none of its
+            // links exists any more, whatever the remote itself has or has not read.
+            let gone = rec.hist.disconnects.iter().any(|(s, pid, _)| *pid == p.id && *s < step);
             for lane in KNOWN_LANES.iter() {
+                if gone {
+                    continue;
+                }
                 let open = by_pl.get(&(p.id, lane.to_string())).copied().unwrap_or(false);
                 if unreliable {
                     // Anything between 0 and "every lane it ever asked about" is possible.
